@@ -53,7 +53,7 @@ let rerror_of_string s : rerror option = match s with
 (* a source returning its last bytes together with the error ("eofdata"/"faildata") delivers the same
    bytes and the same final error as one returning them separately *)
 let mk_src data spec tail =
-  { chunks = chunk_by (sizes_of_spec spec (List.length data)) data; tl = (if tail = "fail" || tail = "faildata" then TFail else TEOF) }
+  { chunks = (match chunks_of_spec spec data with Some cs -> cs | None -> chunk_by (sizes_of_spec spec (List.length data)) data); tl = (if tail = "fail" || tail = "faildata" then TFail else TEOF) }
 
 let rec take_n k l = if k <= 0 then [] else match l with [] -> [] | x :: r -> x :: take_n (k-1) r
 
@@ -218,6 +218,9 @@ let () =
   register "U8R" (fun i o -> match i, o with
     | [p; spec; bufs], [out; e; valid; accepted] ->
       let p = bytes_of_hex p in
+      (* "!" = the last bytes came together with io.EOF: same bytes, same end for the model *)
+      let bang = String.length spec > 0 && spec.[String.length spec - 1] = '!' in
+      let spec = if bang then (let s = String.sub spec 0 (String.length spec - 1) in if s = "" then "-" else s) else spec in
       if not (u8_monitor p (e = "eof") (valid = "1")) then Viol "UTF8Reader verdict differs from the definition of UTF-8"
       else begin
         let bl = List.map n_of_int (ints_spec bufs) in
@@ -225,7 +228,10 @@ let () =
         let ((mo, me), u') = u8_drive (nat_of_int (List.length p + 3)) bl bl u [] in
         let mes = (match me with Some (U8Io EEOF) -> "eof" | Some U8Invalid -> "invalidutf8" | _ -> "other") in
         if mo <> bytes_of_hex out || mes <> e then Diff "model UTF8Reader output/error differs"
-        else if tok_of_bool (u8_valid u') <> valid || int_of_n u'.u_accepted <> int_of_string accepted then Diff "model UTF8Reader Valid/Accepted differs"
+        else if tok_of_bool (u8_valid u') <> valid || ((not bang) && int_of_n u'.u_accepted <> int_of_string accepted) then
+          (* Accepted() counts within the last Read: with data and EOF in one Read it legitimately differs from the
+             model's separate EOF read, so it is not compared for "!" sources *)
+          Diff "model UTF8Reader Valid/Accepted differs"
         else Pass (List.length p >= 2)
       end
     | _ -> Diff "malformed line")
